@@ -902,6 +902,42 @@ pub fn u_sent_cover(f: &F) -> Vec<V> {
             }
         }
     }
+    out.extend(atom_top_products(f));
+    out
+}
+
+/// The rotation above pairs every value of a dimension with every top, but not every COMBINATION of the other
+/// items with every top. For the tops whose first characters can also open another item of a sentence (an atom
+/// prefix that is a budget bracket, a digit name that continues as a number) the combination is what matters - a
+/// top-level `$1` followed by a truth and NO budget, say - so for the atom tops the product is taken in full over
+/// small item alphabets.
+pub fn atom_top_products(f: &F) -> Vec<V> {
+    let _ = f;
+    let mut tops = vec![];
+    for &t in NAMED_ATOMS.iter() {
+        for n in ["0", "1", "a"] {
+            tops.push(R::atom(t, n));
+        }
+    }
+    tops.push(R::interval(7));
+    let stamps = [St::Eternal, St::Fixed(0)];
+    let truths: [Vec<f64>; 3] = [vec![], vec![0.5], vec![1.0, 0.9]];
+    let budgets: [Option<Vec<f64>>; 4] = [None, Some(vec![]), Some(vec![0.5]), Some(vec![0.5, 0.75, 0.4])];
+    let mut out = vec![];
+    for t in &tops {
+        for p in ALL_P {
+            for st in stamps {
+                for tr in &truths {
+                    if !tr.is_empty() && !matches!(p, P::Judgement | P::Goal) {
+                        continue;
+                    }
+                    for b in &budgets {
+                        out.push(V { term: t.clone(), punct: Some(p), stamp: st, truth: tr.clone(), budget: b.clone() });
+                    }
+                }
+            }
+        }
+    }
     out
 }
 
